@@ -71,7 +71,7 @@ def parse_template(text):
             out.append(('consts', spec))
             i += 1
             continue
-        if d and d.group(1) == 'import':
+        if d and d.group(1) in ('import', 'import!'):
             u, _, rest = d.group(2).partition('::')
             crate, _, path = rest.partition('::')
             rename = None
@@ -83,8 +83,16 @@ def parse_template(text):
             spec.indent = re.match(r'\s*', ln).group(0)
             spec.import_from = u.strip()
             spec.rename = rename
-            out.append(('import', spec))
+            spec.extra = []
             i += 1
+            if d.group(1) == 'import!':
+                # `//@import! ..` + clause lines + `//@end`: clauses the importing unit *assumes in addition* to what the
+                # exporting unit proves (kept visible in the template; counted as trusted)
+                while i < n and not lines[i].strip().startswith('//@end'):
+                    spec.extra.append(lines[i])
+                    i += 1
+                i += 1
+            out.append(('import', spec))
             continue
         if not d or d.group(1) not in ('item', 'item!'):
             if d and d.group(1) not in ('item', 'item!'):
@@ -525,6 +533,7 @@ def build_import(src, spec, log, read_template):
     lines = ['#[verifier::external_body]'] + header.rstrip().split('\n')
     for b in specs:
         lines += b[2]
+    lines += getattr(spec, 'extra', [])
     lines.append('{ unimplemented!() }')
     log.setdefault('imports', []).append({'from_unit': spec.import_from, 'item': '%s :: %s' % (spec.crate, spec.path)})
     return [GenLine(spec.indent + l if l.strip() else l, ('tmpl', spec.tline)) for l in lines]
